@@ -11,13 +11,28 @@ SPEC = {
             "runs with -cpu-cap 1 under a flood on all four listeners (NetFlow v5, sFlow, IPFIX, NetFlow v9; evenly or nine in twelve to "
             "one of them), the signal is delivered and the whole process is frozen (SIGSTOP) for 1.2 .. 1.5 s as soon as shutdown() has "
             "begun, then thawed (what a VM pause or a cgroup freeze does); checks exit status 0, no panic, exit within 6 s of the thaw, "
-            "both cache files complete and holding the templates acknowledged before the signal; non-trivial = a cycle that passed every "
-            "check; distinct = distinct cycle description",
+            "both cache files complete and holding the templates acknowledged before the signal. Then early stops (2 quick / 32 thorough, "
+            "plus the witnesses of corpus/C15; three at a time next to the other cycles): the collector is started on a large valid cache "
+            "file of an earlier run (117 MB IPFIX / 101 MB NetFlow v9, written once per run by the real decoder + Dump: `corr bigcache gen`, "
+            "6000 / 8000 exporters x 10 templates x 40 fields; the real GetCache needs 1.6 .. 1.9 s for it, measured, and the file is made "
+            "larger on a machine that loads it in under 1.5 s) and SIGTERM / SIGINT is delivered 0, 20 ms, 100 ms or 1 s after the "
+            "'<protocol> is running (UDP' line, one in four of the early ones also frozen for 1.05 s right after the signal; checks exit "
+            "status 0, no panic, exit within 6 s + twice the load time, and that the file still holds EVERY template it held (loaded back "
+            "with the real GetCache, multiset of template records compared, cache keys never looked at). And same-PID restarts (1 quick / "
+            "6 thorough + witness): a second instance on the pid file of a running one must be refused; then stop/start in PID namespaces "
+            "of their own (unshare --pid --fork --mount-proc /bin/sh -c 'sleep 0.2 && vflow …', the shipped docker-compose entrypoint), "
+            "pid file and cache files kept: the second start must come up (its pid file records its own PID) and decode data sent "
+            "without templates; no verdict where PID namespaces cannot be created (summary key pid_namespaces). Non-trivial = a cycle that "
+            "passed every check; distinct = distinct cycle description",
     "assumptions": ["wall-clock behaviour, signal delivery, the non-atomic stop flag and UDP delivery on loopback are the runtime's and the "
                     "kernel's: observed by the e2e cycles, not proved",
                     "no hypothesis on scheduling is left in the model (hypothesis H of the design disappeared with the F21 repair: the read "
                     "loop closes its own queue); the 1 s sleep / 1 s read deadline fact is used only for 'the dump is taken when the read "
-                    "loop no longer reads' and is an explicit optional assumption of the model (Assume.deadlines)"],
+                    "loop no longer reads' and is an explicit optional assumption of the model (Assume.deadlines)",
+                    "GetCache (reading and parsing the cache file, then the assignment to the package-level variable) is one atomic step "
+                    "of the model's reader that may take arbitrarily long relative to shutdown(); the atomic flag is sequentially "
+                    "consistent (sync/atomic); the pid-file model takes `kill -0 <text>` to succeed exactly on the decimal text of a "
+                    "live PID of the process's namespace"],
 }
 META = {
     "text": "Lean: the statements of the four shutdown() functions, the four UDP read loops, what follows each loop in run(), every send on / "
@@ -29,10 +44,20 @@ META = {
             "been left, at most one read completes after stop is set, every step after stop decreases a measure (the loop exits, the queue "
             "is closed, run() and shutdown() return, nothing is stuck), the dump is taken after stop + grace period. The programs before the "
             "F21 repair are kept as constants: there the send on the closed channel is reachable without the hand-off hypothesis, and "
-            "even with it once the process does not run during the grace period (counterexamples). Template survival composes with C10 "
+            "even with it once the process does not run during the grace period (counterexamples). The reader of the model starts "
+            "BEFORE run() has loaded the cache file (regenerated: the cache variable shutdown() dumps is assigned from GetCache of the "
+            "file it dumps to, then the atomic flag the guarded dump tests is stored; each variable is assigned once and each flag used "
+            "in exactly those two places in package vflow): in no interleaving is the file rewritten from a cache that has not been "
+            "loaded, a skipped dump happens only in a run that never armed a read, a run that did is always dumped; on the programs "
+            "before the F27 repair the wipe is reachable under every timing assumption in a run that ends normally (counterexample). "
+            "The pid-file test of a start (vFlowIsRunning, vFlowPIDWrite and their two call sites regenerated; no other user of the "
+            "pid file) answers 'running' exactly when the file records a live PID other than the process's own, for every file "
+            "content, own PID and set of live PIDs: a restart under the previous run's PID is not refused, a second instance is; the "
+            "old test refused every such restart (counterexample). Template survival composes with C10 "
             "(dump = consistent snapshot) and C11 (load_save). The binary itself is exercised by stop/start cycles with traffic in flight "
-            "and by stops during which the process is frozen for longer than the grace period.",
-    "ref": "DESIGN.md §6 C15, §8 F21",
+            "and by stops during which the process is frozen for longer than the grace period, by stops that arrive while a 100 MB cache "
+            "file of the previous run is still being loaded, and by stop/start pairs in PID namespaces (same PID on every start).",
+    "ref": "DESIGN.md §6 C15, §8 F21 F27 F28",
     "note": "Partial: seconds, signals, the kernel and the scheduler are outside the model. Trusted: Lean kernel, "
             "factgen statement classification, e2e harness.",
     "technique": "Lean 4 exhaustive (kernel-decided) interleaving analysis of the regenerated stop protocol + end-to-end stop/start cycles of the binary",
